@@ -15,6 +15,7 @@ def EA(rid, persist=False): return dict(k="EntityAdd", rid=rid, persist=persist)
 def ED(rid, eid): return dict(k="EntityDelete", rid=rid, eid=eid)
 def AC(rid, eid, v): return dict(k="Action", rid=rid, eid=eid, v=v)
 def DI(rid): return dict(k="Disc", rid=rid)
+def AS(rid, eid): return dict(k="AssetAdd", rid=rid, eid=eid)
 B = "B"
 
 
@@ -50,14 +51,23 @@ def harness_req(r):
         return dict(k="EntityDelete", rid=r["rid"], eid=r["eid"], ts=r["rid"])
     if k == "Action":
         return dict(k="Action", rid=r["rid"], eid=r["eid"], name="x", ats=r["v"], data=r["v"] % 4, ts=r["rid"])
+    if k == "AssetAdd":
+        return dict(k="AssetAdd", rid=r["rid"], eid=r["eid"], asset="m", ts=r["rid"])
     if k == "Disc":
         return dict(k="Disc")
     raise ValueError(k)
 
 
+def mods_of(mod):
+    """mod: False / "none" (no module), True / "vikja", "odal" """
+    if mod in (False, None, "none"):
+        return []
+    return ["vikja"] if mod in (True, "vikja") else [mod]
+
+
 def scenario(cid, prog, vikja, unmod, sched=None, rnd_seed=None):
     ph = phases_of(prog)
-    sc = dict(cid=cid, config=dict(mods=["vikja"] if vikja else [], flags=[]),
+    sc = dict(cid=cid, config=dict(mods=mods_of(vikja), flags=[]),
               phases=[[dict(conn=c, req=harness_req(r)) for c, r in p] for p in ph], unmodelled=unmod)
     if sched is not None:
         sc["sched"] = sched
@@ -95,6 +105,12 @@ def model_msg(m, reqs):
         return dict(t=t, rid=m["rid"], eid=reqs[m["rid"]]["eid"], v=reqs[m["rid"]]["v"])
     if t == "ACTION_BROADCAST":
         return dict(t=t, eid=m["act"][0], v=m["act"][2])
+    if t == "ODAL_STATE":
+        return dict(t=t, acts=[dict(eid=a[0], v=a[1]) for a in m["assets"]])
+    if t == "ASSET_ADD_RESPONSE":
+        return dict(t=t, rid=m["rid"], eid=reqs[m["rid"]]["eid"], v=m["aid"])
+    if t == "ASSET_ADD_BROADCAST":
+        return dict(t=t, eid=m["asset"][0], v=m["asset"][1])
     if t == "ERROR":
         return dict(t=t, rid=m["rid"], code=m["code"])
     return dict(t=t)
@@ -127,7 +143,8 @@ def trace_of(prog, result):
         sess = []
         for s in post["sess"]:
             sess.append(dict(sid=s["sid"], pcur=s["pcur"], ecur=s["ecur"], fh=s["fh"], mem=s["mem"],
-                             ents=[[e[0], e[1], e[2]] for e in s["ents"]], acts=[[a[0], a[2]] for a in s["acts"]]))
+                             ents=[[e[0], e[1], e[2]] for e in s["ents"]],
+                             acts=[[a[0], a[2]] for a in s["acts"]] + [[a[0], a[1]] for a in s.get("assets", [])]))
         conns_v = [[c["c"], c["sid"], c["pid"], c["own"]] for c in post["conns"] if c["c"] in CONNS]
         have = {c[0] for c in conns_v}
         for c in CONNS:
@@ -207,13 +224,24 @@ def catalogue(vikja):
     out.append(("delete_add_join", with_block(s, [(1, ED(n, 1)), (2, EA(n + 1, False)), (3, J(n + 2, 1))])))
     s, n = setup_one_session(3, entities=[(3, False), (3, True)])
     out.append(("leave_vs_adds", with_block(s, [(3, DI(n)), (1, EA(n + 1, False)), (2, EA(n + 2, True))])))
-    if vikja:
+    if vikja in (True, "vikja"):
         s, n = setup_one_session(2, entities=[(1, False)], actions=[(1, 1, 1)])
         out.append(("delete_vs_action_vs_join", with_block(s, [(1, ED(n, 1)), (2, AC(n + 1, 1, 2)), (3, J(n + 2, 1))])))
         out.append(("two_actions_and_join", with_block(s, [(1, AC(n, 1, 2)), (2, AC(n + 1, 1, 3)), (3, J(n + 2, 1))])))
         out.append(("leave_vs_action_vs_join", with_block(s, [(1, DI(n)), (2, AC(n + 1, 1, 2)), (3, J(n + 2, 1))])))
         out.append(("create_vs_join_then_actions", from_phases([[(1, J(1, 0)), (2, J(2, 1))], [(1, EA(3, False))], [(1, AC(4, 1, 1))],
                                                                 [(2, AC(5, 1, 2))], [(3, J(6, 1))]])))
+    if vikja == "odal":
+        s, n = setup_one_session(2, entities=[(1, False), (2, False)])
+        s = with_block(s, [(1, AS(n, 1))])
+        for c in CONNS:
+            s[c].append(B)
+        n += 1
+        out.append(("delete_vs_asset_vs_join", with_block(s, [(1, ED(n, 1)), (2, AS(n + 1, 2)), (3, J(n + 2, 1))])))
+        out.append(("asset_vs_delete_same_entity", with_block(s, [(1, AS(n, 1)), (3, J(n + 2, 1))]) ))
+        out.append(("leave_vs_asset_vs_join", with_block(s, [(1, DI(n)), (2, AS(n + 1, 2)), (3, J(n + 2, 1))])))
+        out.append(("foreign_asset_vs_join", with_block(s, [(2, AS(n, 1)), (1, AS(n + 1, 1)), (3, J(n + 2, 1))])))
+        out.append(("own_asset_while_deleting", with_block(s, [(1, ED(n, 1)), (3, J(n + 2, 1))])))
     return out
 
 
@@ -221,7 +249,7 @@ def random_prog(rnd, vikja):
     """a random setup followed by one concurrent block of 2-3 requests"""
     nm = rnd.choice([1, 2, 2, 3])
     ents = [(rnd.randint(1, nm), rnd.random() < 0.3) for _ in range(rnd.choice([0, 1, 2]))]
-    acts = [(rnd.randint(1, nm), rnd.randint(1, max(1, len(ents))), 1) for _ in range(rnd.choice([0, 1]) if vikja and ents else 0)]
+    acts = [(rnd.randint(1, nm), rnd.randint(1, max(1, len(ents))), 1) for _ in range(rnd.choice([0, 1]) if vikja in (True, "vikja") and ents else 0)]
     s, n = setup_one_session(nm, entities=ents, actions=acts)
     block = []
     for c in rnd.sample(CONNS, rnd.choice([2, 3, 3])):
@@ -229,10 +257,11 @@ def random_prog(rnd, vikja):
         if not joined:
             r = J(n, rnd.choice([0, 1, 1, 1, 2]))
         else:
-            kinds = ["EA", "ED", "DI", "J"] + (["AC", "AC"] if vikja else [])
+            kinds = ["EA", "ED", "DI", "J"] + (["AC", "AC"] if vikja in (True, "vikja") else []) + (["AS", "AS"] if vikja == "odal" else [])
             k = rnd.choice(kinds)
             r = dict(EA=lambda: EA(n, rnd.random() < 0.3), ED=lambda: ED(n, rnd.randint(1, max(1, len(ents)))), DI=lambda: DI(n),
-                     J=lambda: J(n, rnd.choice([0, 0, 1, 2])), AC=lambda: AC(n, rnd.randint(1, max(1, len(ents))), rnd.randint(1, 3)))[k]()
+                     J=lambda: J(n, rnd.choice([0, 0, 1, 2])), AC=lambda: AC(n, rnd.randint(1, max(1, len(ents))), rnd.randint(1, 3)),
+                     AS=lambda: AS(n, rnd.randint(1, max(1, len(ents)))))[k]()
         n += 1
         block.append((c, r))
     return with_block(s, block)
